@@ -947,3 +947,683 @@ def R11(vc):
     _check_value_callbacks(vc, world, cause, cbs, kwargs, pre)
     vc.canary('canary.always_matches', truthy(res))
     return ('changes', changing)
+
+
+# =============================================================================================== R12
+PARTS = ('_matches_resource', '_matches_subresource', '_matches_labels', '_matches_annotations', '_matches_field_values',
+         '_matches_field_changes', '_matches_filter_callback')
+WHEN_PART, CHANGES_PART = '_matches_filter_callback', '_matches_field_changes'
+
+
+@harness('R12', targets=[f'{REG}.match', f'{REG}.prematch'], props=['C15'],
+         clauses=['conjunction_of_all_criteria', 'prematch_ignores_change_criteria', 'when_evaluated_last', 'arguments',
+                  'one_shared_kwargs', 'kwargs_built_at_most_once', 'integration'],
+         canaries=['canary.always_matches', 'canary.never_matches'],
+         trusted=['the _matches_* predicates by contract (R10, R11): booleans of (handler, cause); each builds the kwargs into the '
+                  'shared dict only when that dict is still empty'])
+def R12(vc):
+    """
+    match(handler, cause)    <=>  resource selector and subresource and labels and annotations and field/value and
+                                  old/new/changed and when  ("Multiple criteria are joined with AND", docs/filters.rst);
+    prematch(handler, cause) <=>  the same without the old/new/changed criteria (never consulted: the stealth gate and the
+                                  finalizer decision look at the object, not at a transition).
+    The `when=` callback -- arbitrary user code over all kwargs -- is evaluated last: only when every other criterion
+    holds, and nothing is evaluated after it.  All predicates get the handler and the cause (the selector: cause.resource)
+    and ONE shared kwargs dict, empty when the first of them sees it and fresh for every match; with R10/R11
+    (each predicate fills the dict only when it is empty) the cause's kwargs are built at most once per match --
+    also checked end to end on the real predicates with callbacks in every position (clause integration).
+    """
+    target = ('match', 'prematch')[vc.nondet(2, 'match | prematch')]
+    if vc.nondet(2, 'by contract | integration') == 0:
+        h, resource = Opaque('handler'), Opaque('cause.resource')
+        cause = Opaque('cause', resource=resource)
+        val = {p: vc.bool(p) for p in PARTS}
+        log = []
+
+        def stub(name):
+            def part(*a, **kw):
+                snap = None
+                if name not in ('_matches_resource', '_matches_subresource') and len(a) == 3 and isinstance(a[2], dict):
+                    snap = dict(a[2])
+                    if not a[2]:
+                        a[2]['built-by'] = name          # the predicates' contract: fill the shared dict when it is empty
+                log.append((name, a, kw, snap))
+                return val[name]
+            return part
+        ld = vc.load(REG, target, stubs={p: stub(p) for p in PARTS})
+        res = ld.fn(h, cause)
+        expected = [p for p in PARTS if not (target == 'prematch' and p == CHANGES_PART)]
+        names = [e[0] for e in log]
+        vc.ensure('conjunction_of_all_criteria', Iff(truthy(res), And(*[val[p] for p in expected])))
+        vc.ensure('conjunction_of_all_criteria', len(set(names)) == len(names) and set(names) <= set(PARTS))
+        if target == 'prematch':
+            vc.ensure('prematch_ignores_change_criteria', CHANGES_PART not in names)
+        else:
+            vc.ensure('prematch_ignores_change_criteria', Implies(truthy(res), CHANGES_PART in names))
+        if WHEN_PART in names:
+            others = [p for p in expected if p != WHEN_PART]
+            vc.ensure('when_evaluated_last', names[-1] == WHEN_PART and set(names[:-1]) == set(others))
+            vc.ensure('when_evaluated_last', And(*[val[p] for p in others]))
+        kws = []
+        for name, a, kw, snap in log:
+            if name == '_matches_resource':
+                vc.ensure('arguments', not kw and len(a) == 2 and a[0] is h and a[1] is resource)
+            elif name == '_matches_subresource':
+                vc.ensure('arguments', not kw and len(a) == 2 and a[0] is h and a[1] is cause)
+            else:
+                vc.ensure('arguments', not kw and len(a) == 3 and a[0] is h and a[1] is cause and isinstance(a[2], dict))
+                kws.append((a[2], snap))
+        vc.ensure('one_shared_kwargs', all(k is kws[0][0] for k, _ in kws) and (not kws or kws[0][1] == {}))
+        # a second match starts from a fresh, empty dict again
+        first = kws[0][0] if kws else None
+        del log[:]
+        ld.fn(h, cause)
+        again = [(a[2], snap) for name, a, kw, snap in log if len(a) == 3]
+        vc.ensure('one_shared_kwargs', len(again) == len(kws) and all(k is not first and (i > 0 or snap == {}) for i, (k, snap) in enumerate(again)))
+        vc.canary('canary.always_matches', truthy(res))
+        vc.canary('canary.never_matches', Not(truthy(res)))
+        return (target, res)
+    # ---- integration: the real predicates, callbacks in every position, the cause's kwargs counted
+    failing = [None, 'labels', 'annotations', 'value', 'old', 'when'][vc.nondet(6, 'which callback says no')]
+    seen = []
+
+    def cb(name):
+        def f(*a, **kw):
+            seen.append((name, a, kw)); return name != failing
+        return f
+    h = handlers.ChangingHandler(**_common('h'), selector=None, labels={'l': cb('labels')}, annotations={'n': cb('annotations')},
+                                 when=cb('when'), field=('spec', 'x'), value=cb('value'), reason=R.UPDATE, initial=None, deleted=None,
+                                 requires_finalizer=None, field_needs_change=True, old=cb('old'), new=cb('new'))
+    cause = _mk_cause(True)
+    cause.body = bodies.Body({'metadata': {'labels': {'l': ''}}, 'spec': {'x': 1}})
+    cause.old, cause.new = {'spec': {}}, {'spec': {'x': 1}}
+    res = vc.load(REG, target).fn(h, cause)
+    order = ['labels', 'annotations', 'value'] + ([] if target == 'prematch' else ['old', 'new']) + ['when']
+    vc.ensure('integration', bool(res) == (failing is None or failing not in order))
+    vc.ensure('kwargs_built_at_most_once', cause.kwargs_built == 1)
+    vc.ensure('integration', all(set(kw) == set(cause.KW) and all(kw[k] is cause.KW[k] for k in kw) for _n, _a, kw in seen))
+    allowed = {'labels': [('',)], 'annotations': [(None,)], 'value': [(1,), (None,)], 'old': [(None,)], 'new': [(1,)], 'when': [()]}
+    vc.ensure('integration', all(a in allowed[n] for n, a, _kw in seen))      # the value of the field/label, None when absent
+    called = [n for n, _a, _k in seen]
+    if failing is None:
+        vc.ensure('integration', set(called) == set(order) and called.count('when') == 1 and called[-1] == 'when')
+    vc.ensure('integration', (target == 'match') or not ({'old', 'new'} & set(called)))
+    return (target, 'integration', failing, bool(res))
+
+
+# =============================================================================================== R15
+WT = causes.WebhookType
+CHANGING_KINDS = ('create', 'update', 'delete', 'resume', 'field')
+RESOURCE_KINDS = CHANGING_KINDS + ('event', 'index', 'daemon', 'timer', 'validate', 'mutate')
+ACTIVITY_KINDS = {'startup': ACT.STARTUP, 'cleanup': ACT.CLEANUP, 'login': ACT.AUTHENTICATION, 'probe': ACT.PROBE}
+REGISTRY_ATTR = {'event': '_watching', 'index': '_indexing', 'daemon': '_spawning', 'timer': '_spawning',
+                 'validate': '_webhooks', 'mutate': '_webhooks'}
+HANDLER_CLASS = {'event': handlers.WatchingHandler, 'index': handlers.IndexingHandler, 'daemon': handlers.DaemonHandler,
+                 'timer': handlers.TimerHandler, 'validate': handlers.WebhookHandler, 'mutate': handlers.WebhookHandler}
+ALL_REGISTRIES = ('_activities', '_indexing', '_watching', '_spawning', '_changing', '_webhooks')
+WITH_ERROR_POLICY = CHANGING_KINDS + ('index', 'daemon', 'timer') + tuple(ACTIVITY_KINDS)     # docs/errors.rst: errors/timeout/retries/backoff
+
+
+def _registered(reg):
+    return [(attr, h) for attr in ALL_REGISTRIES for h in getattr(reg, attr).get_all_handlers()]
+
+
+def _falsy(x):
+    return x is None or x is False
+
+
+@harness('R15', targets=[f'kopf.on.{k}' for k in RESOURCE_KINDS + tuple(ACTIVITY_KINDS) + ('subhandler', 'register')] +
+                        ['kopf.on._verify_operations', 'kopf.on._verify_filters', 'kopf.on._warn_conflicting_values',
+                         'kopf.on._warn_incompatible_parent_with_oldnew'],
+         props=['C05', 'C15', 'C11', 'C09', 'C02', 'C06', 'C20'],
+         clauses=['one_handler_in_its_registry', 'returns_the_function', 'kind_attributes', 'delete_requires_finalizer_unless_optional',
+                  'spawning_requires_finalizer', 'update_handlers_need_change', 'criteria_passed_through', 'error_policy_passed_through',
+                  'id_from_function_or_id_plus_field', 'index_id_is_its_name', 'selector', 'activity_kind', 'subhandler',
+                  'rejects_invalid'],
+         canaries=['canary.delete_always_requires_finalizer', 'canary.id_is_function_name'],
+         assumes=['decorators are exercised with concrete declarations: every kind x field in {unset, "spec.x", ("spec","x")} x id in '
+                  '{unset, explicit} x value/old/new variants x 2 selector notations; `optional`/`deleted` symbolic over {None, False, True}'])
+def R15(vc):
+    """
+    What each public decorator registers (docs/handlers.rst, docs/filters.rst, docs/daemons.rst, docs/timers.rst,
+    docs/indexing.rst, docs/admission.rst, docs/errors.rst) -- the attributes the selection contracts (R1, R2, R8, R9, R11)
+    take as the handler's KIND:
+      exactly ONE handler is appended, to the registry of its family, holding the decorated function, which is returned unchanged;
+      create/update/delete: reason CREATE/UPDATE/DELETE, not initial;  resume: no reason, initial, `deleted` as declared;
+      field: no reason, not initial;  update and field are the update handlers (field_needs_change; old=/new= as declared),
+      all other changing handlers carry no change criteria;
+      delete: requires_finalizer unless optional=True (None/False: mandatory) -- and NO other changing handler requires it;
+      daemon/timer: requires_finalizer always; their own settings as declared;
+      validate/mutate: VALIDATING/MUTATING, operations/subresource/... as declared;  startup/cleanup/login/probe: their activity,
+      never a fallback;
+      labels/annotations/when/field (parsed to a path)/value/param and, where the kind has an error policy, errors/timeout/
+      retries/backoff are stored as declared (C11: the policy applied is the declared one);
+      id = the explicit id or the function's name, plus "/<field>" when a field is declared ("fn/spec.field") --
+      except for indices, whose id IS the index's name;  sub-handlers: "<parent id>/<id>", no selector, the parent's update-ness;
+      the selector is the Selector of the given resource notation.
+    Rejected declarations: value= together with old=/new=; value/old/new without field=; None as a label/annotation
+    criterion; an empty operations collection; old=/new= on sub-handlers of non-update handlers; sub-handlers outside a
+    changing handler.
+    """
+    from kopf import on
+    from kopf._core.reactor import subhandling
+    import kopf
+    part = vc.nondet(4, 'resource kinds | activities | sub-handlers | rejections')
+    reg = kopf.OperatorRegistry()
+
+    def myfn(**_):
+        return None
+    P, E_, W = Opaque('param'), execution.ErrorsMode.PERMANENT, (lambda **_: True)
+    LBL, ANN = {'l': 'v', 'e': ''}, {'a': PRESENT}
+    policy = dict(errors=E_, timeout=12.5, retries=3, backoff=0.5)
+
+    if part == 0:
+        kind = RESOURCE_KINDS[vc.nondet(len(RESOURCE_KINDS), 'kind')]
+        fvar = vc.nondet(3, 'field: unset | "spec.x" | ("spec","x")')
+        if kind == 'field' and fvar == 0:
+            fvar = 1                                    # field= is mandatory there (a keyword-only parameter without default)
+        field = [None, 'spec.x', ('spec', 'x')][fvar]
+        explicit_id = vc.nondet(2, 'id: unset | explicit') == 1
+        kw = dict(registry=reg, param=P, labels=LBL, annotations=ANN, when=W)
+        if explicit_id:
+            kw['id'] = 'explicit'
+        if field is not None:
+            kw['field'] = field
+        vvar = 0
+        if field is not None:
+            vvar = vc.nondet(3 if kind in ('update', 'field') else 2, 'value: unset | value= | old=/new=')
+            if vvar == 1:
+                kw['value'] = 'v'
+            elif vvar == 2:
+                kw['old'], kw['new'] = ABSENT, 'n'
+        if kind in WITH_ERROR_POLICY:
+            kw.update(policy)
+        optional = deleted = None
+        if kind == 'delete':
+            optional = vc.fin('optional', [None, False, True]); kw['optional'] = optional
+        if kind == 'resume':
+            deleted = vc.fin('deleted', [None, False, True]); kw['deleted'] = deleted
+        extra = {}
+        if kind == 'daemon':
+            extra = dict(initial_delay=1.5, cancellation_backoff=2.0, cancellation_timeout=3.0, cancellation_polling=4.0)
+        if kind == 'timer':
+            extra = dict(initial_delay=1.5, interval=7.0, idle=8.0, sharp=True)
+        if kind in ('validate', 'mutate'):
+            extra = dict(operations=['CREATE', 'UPDATE'], subresource='status', persistent=True, side_effects=False, ignore_failures=True)
+        kw.update(extra)
+        notation = vc.nondet(2, 'selector: positional | keywords')
+        sel_args, sel_kw = ((('kopf.dev', 'v1', 'kopfexamples'), {}) if notation == 0 else ((), dict(group='kopf.dev', kind='KopfExample')))
+        deco = vc.load('kopf.on', kind).fn(*sel_args, **sel_kw, **kw)
+        ret = deco(myfn)
+        got = _registered(reg)
+        vc.ensure('returns_the_function', ret is myfn)
+        vc.ensure('one_handler_in_its_registry', len(got) == 1)
+        attr, h = got[0]
+        want_attr = REGISTRY_ATTR.get(kind, '_changing')
+        want_cls = HANDLER_CLASS.get(kind, handlers.ChangingHandler)
+        vc.ensure('one_handler_in_its_registry', attr == want_attr and type(h) is want_cls and h.fn is myfn)
+        # -- the kind
+        if kind in CHANGING_KINDS:
+            want_reason = {'create': R.CREATE, 'update': R.UPDATE, 'delete': R.DELETE}.get(kind)
+            vc.ensure('kind_attributes', h.reason is want_reason)
+            vc.ensure('kind_attributes', (h.initial is True) if kind == 'resume' else _falsy(h.initial))
+            vc.ensure('kind_attributes', vc_is(h.deleted, deleted) if kind == 'resume' else _falsy(h.deleted))
+            if kind == 'delete':
+                vc.ensure('delete_requires_finalizer_unless_optional', Iff(h.requires_finalizer is True, Not(vc_is(optional, True))))
+                vc.ensure('delete_requires_finalizer_unless_optional', h.requires_finalizer is True or _falsy(h.requires_finalizer))
+                vc.canary('canary.delete_always_requires_finalizer', h.requires_finalizer is True)
+            else:
+                vc.ensure('delete_requires_finalizer_unless_optional', _falsy(h.requires_finalizer))
+            if kind in ('update', 'field'):
+                vc.ensure('update_handlers_need_change', h.field_needs_change is True)
+                vc.ensure('update_handlers_need_change', (h.old is ABSENT and h.new == 'n') if vvar == 2 else (h.old is None and h.new is None))
+            else:
+                vc.ensure('update_handlers_need_change', _falsy(h.field_needs_change) and h.old is None and h.new is None)
+        elif kind in ('daemon', 'timer'):
+            vc.ensure('spawning_requires_finalizer', h.requires_finalizer is True)
+            vc.ensure('kind_attributes', all(getattr(h, k) == v for k, v in extra.items()))
+        elif kind in ('validate', 'mutate'):
+            vc.ensure('kind_attributes', h.reason is (WT.VALIDATING if kind == 'validate' else WT.MUTATING))
+            vc.ensure('kind_attributes', all(getattr(h, k) == v for k, v in extra.items()))
+        # -- criteria, policy
+        vc.ensure('criteria_passed_through', h.param is P and h.labels is LBL and h.annotations is ANN and h.when is W)
+        vc.ensure('criteria_passed_through', h.field == (('spec', 'x') if field is not None else None)
+                  and (h.field is None or isinstance(h.field, tuple)))
+        vc.ensure('criteria_passed_through', h.value == ('v' if vvar == 1 else None))
+        if kind in WITH_ERROR_POLICY:
+            vc.ensure('error_policy_passed_through', h.errors is E_ and h.timeout == 12.5 and h.retries == 3 and h.backoff == 0.5)
+        else:
+            vc.ensure('error_policy_passed_through', h.errors is None and h.timeout is None and h.retries is None and h.backoff is None)
+        # -- id
+        base = 'explicit' if explicit_id else 'R15.<locals>.myfn'
+        if kind == 'index':
+            vc.ensure('index_id_is_its_name', h.id == base)
+        else:
+            vc.ensure('id_from_function_or_id_plus_field', h.id == (base + '/spec.x' if field is not None else base))
+        vc.canary('canary.id_is_function_name', h.id == 'R15.<locals>.myfn')
+        vc.ensure('selector', h.selector == references.Selector(*sel_args, **sel_kw))
+        return (kind, fvar, explicit_id, vvar, h.id)
+
+    if part == 1:
+        kind = list(ACTIVITY_KINDS)[vc.nondet(4, 'activity kind')]
+        explicit_id = vc.nondet(2, 'id: unset | explicit') == 1
+        kw = dict(registry=reg, param=P, **policy)
+        if explicit_id:
+            kw['id'] = 'explicit'
+        ret = vc.load('kopf.on', kind).fn(**kw)(myfn)
+        got = _registered(reg)
+        vc.ensure('returns_the_function', ret is myfn)
+        vc.ensure('one_handler_in_its_registry', len(got) == 1 and got[0][0] == '_activities' and type(got[0][1]) is handlers.ActivityHandler)
+        h = got[0][1]
+        vc.ensure('activity_kind', h.activity is ACTIVITY_KINDS[kind] and h._fallback is False and h.fn is myfn and h.param is P)
+        vc.ensure('error_policy_passed_through', h.errors is E_ and h.timeout == 12.5 and h.retries == 3 and h.backoff == 0.5)
+        vc.ensure('id_from_function_or_id_plus_field', h.id == ('explicit' if explicit_id else 'R15.<locals>.myfn'))
+        return (kind, explicit_id, h.id)
+
+    def parent_of(pkind):
+        preg = kopf.OperatorRegistry()
+        getattr(on, pkind)('kopfexamples', registry=preg, id='parent', **({'field': 'spec.x'} if pkind == 'field' else {}))(myfn)
+        return _registered(preg)[0][1]
+
+    if part == 2:
+        pkind = ('create', 'update', 'delete', 'resume', 'field')[vc.nondet(5, 'parent kind')]
+        parent = parent_of(pkind)
+        sub = registries.ChangingRegistry()
+        via_register = vc.nondet(2, '@subhandler | register()') == 1
+        with_oldnew = (not via_register) and pkind in ('update', 'field') and vc.nondet(2, 'old=/new=?') == 1
+        t1, t2 = execution.handler_var.set(parent), subhandling.subregistry_var.set(sub)
+        try:
+            kw = dict(id='child', param=P, labels=LBL, annotations=ANN, when=W, **policy)
+            if via_register:
+                ret = vc.load('kopf.on', 'register', stubs={'subhandler': vc.load('kopf.on', 'subhandler').fn}).fn(myfn, **kw)
+            else:
+                if with_oldnew:
+                    kw.update(field='spec.y', old='o', new=PRESENT)
+                ret = vc.load('kopf.on', 'subhandler').fn(**kw)(myfn)
+        finally:
+            execution.handler_var.reset(t1); subhandling.subregistry_var.reset(t2)
+        hs = sub.get_all_handlers()
+        vc.ensure('returns_the_function', ret is myfn)
+        vc.ensure('subhandler', len(hs) == 1 and type(hs[0]) is handlers.ChangingHandler and hs[0].fn is myfn)
+        h = hs[0]
+        vc.ensure('subhandler', h.id == 'parent/spec.x/child' if pkind == 'field' else h.id == 'parent/child')
+        vc.ensure('subhandler', h.selector is None and h.reason is None and _falsy(h.initial) and _falsy(h.requires_finalizer))
+        vc.ensure('subhandler', bool(h.field_needs_change) == (pkind in ('update', 'field')))
+        vc.ensure('subhandler', (h.old == 'o' and h.new is PRESENT and h.field == ('spec', 'y')) if with_oldnew else (h.old is None and h.new is None and h.field is None))
+        vc.ensure('criteria_passed_through', h.param is P and h.labels is LBL and h.annotations is ANN and h.when is W)
+        vc.ensure('error_policy_passed_through', h.errors is E_ and h.timeout == 12.5 and h.retries == 3 and h.backoff == 0.5)
+        return ('sub', pkind, via_register, with_oldnew, h.id)
+
+    # ---- rejections
+    def rejected(exc, build):
+        try:
+            build()
+        except exc:
+            return len(_registered(reg)) == 0
+        except Exception:
+            return False
+        return False
+    case = vc.nondet(8, 'invalid declaration')
+    kinds_all = RESOURCE_KINDS
+    if case == 0:       # value= together with old=/new=
+        for k in ('update', 'field'):
+            for bad in (dict(value='v', old='o'), dict(value='v', new='n'), dict(value=PRESENT, old=ABSENT, new='n')):
+                vc.ensure('rejects_invalid', rejected(TypeError, lambda: vc.load('kopf.on', k).fn('kopfexamples', registry=reg, field='spec.x', **bad)(myfn)))
+    elif case == 1:     # value/old/new without a field
+        for k in kinds_all:
+            if k != 'field':
+                vc.ensure('rejects_invalid', rejected(TypeError, lambda: vc.load('kopf.on', k).fn('kopfexamples', registry=reg, value='v')(myfn)))
+        for bad in (dict(old='o'), dict(new='n')):
+            vc.ensure('rejects_invalid', rejected(TypeError, lambda: vc.load('kopf.on', 'update').fn('kopfexamples', registry=reg, **bad)(myfn)))
+    elif case == 2:     # None as a label / annotation criterion
+        for k in kinds_all:
+            f = {'field': 'spec.x'} if k == 'field' else {}
+            vc.ensure('rejects_invalid', rejected(ValueError, lambda: vc.load('kopf.on', k).fn('kopfexamples', registry=reg, labels={'l': None}, **f)(myfn)))
+            vc.ensure('rejects_invalid', rejected(ValueError, lambda: vc.load('kopf.on', k).fn('kopfexamples', registry=reg, annotations={'ok': 'v', 'a': None}, **f)(myfn)))
+    elif case == 3:     # empty operations
+        for k in ('validate', 'mutate'):
+            for empty in ([], (), set(), frozenset()):
+                vc.ensure('rejects_invalid', rejected(ValueError, lambda: vc.load('kopf.on', k).fn('kopfexamples', registry=reg, operations=empty)(myfn)))
+    elif case == 4:     # the deprecated operation= is merged into operations
+        import warnings
+        for k in ('validate', 'mutate'):
+            with warnings.catch_warnings():
+                warnings.simplefilter('ignore')
+                r2 = kopf.OperatorRegistry()
+                vc.load('kopf.on', k).fn('kopfexamples', registry=r2, operation='DELETE')(myfn)
+                vc.load('kopf.on', k).fn('kopfexamples', registry=r2, operation='DELETE', operations=['CREATE'])(myfn)
+                vc.load('kopf.on', k).fn('kopfexamples', registry=r2)(myfn)
+            ops = [h.operations for _a, h in _registered(r2)]
+            vc.ensure('kind_attributes', len(ops) == 3 and set(ops[0]) == {'DELETE'} and set(ops[1]) == {'DELETE', 'CREATE'} and ops[2] is None)
+        vc.ensure('rejects_invalid', True)
+    elif case == 5:     # old=/new= on sub-handlers of non-update handlers
+        for pkind in ('create', 'delete', 'resume'):
+            t1, t2 = execution.handler_var.set(parent_of(pkind)), subhandling.subregistry_var.set(registries.ChangingRegistry())
+            try:
+                vc.ensure('rejects_invalid', rejected(TypeError, lambda: vc.load('kopf.on', 'subhandler').fn(field='spec.x', old='o')(myfn)))
+                vc.ensure('rejects_invalid', rejected(TypeError, lambda: vc.load('kopf.on', 'subhandler').fn(field='spec.x', new='n')(myfn)))
+            finally:
+                execution.handler_var.reset(t1); subhandling.subregistry_var.reset(t2)
+    elif case == 6:     # sub-handlers outside of a changing handler
+        dreg = kopf.OperatorRegistry()
+        on.daemon('kopfexamples', registry=dreg, id='d')(myfn)
+        t1, t2 = execution.handler_var.set(_registered(dreg)[0][1]), subhandling.subregistry_var.set(registries.ChangingRegistry())
+        try:
+            vc.ensure('rejects_invalid', rejected(TypeError, lambda: vc.load('kopf.on', 'subhandler').fn(id='child')(myfn)))
+        finally:
+            execution.handler_var.reset(t1); subhandling.subregistry_var.reset(t2)
+    else:               # valid edge declarations are NOT rejected: empty-string criteria, empty patterns, PRESENT/ABSENT
+        for k in kinds_all:
+            f = {'field': 'spec.x'} if k == 'field' else {}
+            r2 = kopf.OperatorRegistry()
+            vc.load('kopf.on', k).fn('kopfexamples', registry=r2, labels={'l': ''}, annotations={}, **f)(myfn)
+            vc.load('kopf.on', k).fn('kopfexamples', registry=r2, field='spec.x', value='')(myfn)
+            hs = [h for _a, h in _registered(r2)]
+            vc.ensure('criteria_passed_through', len(hs) == 2 and hs[0].labels == {'l': ''} and hs[0].annotations == {} and hs[1].value == '')
+        vc.ensure('rejects_invalid', True)
+    return ('rejections', case)
+
+
+# =============================================================================================== R13
+def _sample_fn(**_):
+    return None
+
+
+class _Sample:
+    def method(self, **_):
+        return None
+
+
+_sample_lambda = lambda **_: None      # noqa: E731  (its id is "lambda:<this file>:<this line>")
+
+
+def _sample_outer():
+    def inner(**_):
+        return None
+    return inner
+
+
+class _CallableObject:
+    def __call__(self, **_):
+        return None
+
+
+_RESTART_SOURCE = '''
+import functools
+def handler(**_): return None
+class Owner:
+    def method(self, **_): return None
+anonymous = lambda **_: None
+def decorated(**_): return None
+@functools.wraps(decorated)
+def wrapper(**kw): return decorated(**kw)
+'''
+
+
+def _one_process_start():
+    ns = {}
+    exec(compile(_RESTART_SOURCE, '/operator/handlers.py', 'exec'), ns)
+    return ns
+
+
+@harness('R13', targets=[f'{REG}.generate_id', f'{REG}.get_callable_id'], props=['C16', 'C02'],
+         clauses=['id_composition', 'callable_id_cases', 'rejects_unidentifiable', 'stable_across_restarts', 'no_volatile_ingredients'],
+         canaries=['canary.id_is_bare', 'canary.restart_changes_objects'],
+         assumes=['an explicit id= is a non-empty string (an empty handler id is not a usable key for progress records)'])
+def R13(vc):
+    """
+    generate_id(fn, id, prefix, suffix) -- for arbitrary strings (prefix and suffix also empty = not given; the decorators
+    pass suffix "" when no field is declared):
+        base = the explicit id if given, else get_callable_id(fn);  result = [prefix "/"] base ["/" suffix]
+    i.e. a deterministic function of (explicit id | the function's identity, prefix, suffix): the progress records of C02
+    and the annotation names of C16 are keyed by it.
+    get_callable_id(c): a plain/nested function or (un)bound method -> its __qualname__; functools.partial -> the id of the
+    wrapped function (recursively); functools.wraps-style wrappers (__wrapped__) -> the id of the wrapped one; a lambda ->
+    "lambda:<file>:<line>" (stable while the code is unchanged); None, callable objects and builtins are rejected with
+    ValueError (no persistent id).  Stable across restarts: executing the same operator source twice (two "process starts":
+    distinct function objects) gives identical ids, and the two functions' sources contain no call of id()/hash()/time/
+    random/uuid/os.getpid (AST scan).
+    """
+    part = vc.nondet(3, 'generate_id | get_callable_id cases | restart + purity')
+    if part == 0:
+        fn = Opaque('fn')
+        cid = vc.str('get_callable_id(fn)')
+        asked = []
+
+        def get_callable_id(c):
+            asked.append(c); return cid
+        explicit = vc.opt('id', vc.str)
+        prefix, suffix = vc.opt('prefix', vc.str), vc.opt('suffix', vc.str)
+        if explicit is not None:
+            vc.assume(Not(Eq(explicit, '')), 'an explicit id is non-empty')
+        res = vc.load(REG, 'generate_id', stubs={'get_callable_id': get_callable_id}).fn(fn, explicit, prefix, suffix)
+        base = explicit if explicit is not None else cid
+        has_suffix = False if suffix is None else Not(Eq(suffix, ''))
+        has_prefix = False if prefix is None else Not(Eq(prefix, ''))
+        sfx = '' if suffix is None else suffix
+        pfx = '' if prefix is None else prefix
+        vc.ensure('id_composition', Implies(And(Not(has_prefix), Not(has_suffix)), Eq(res, base)))
+        vc.ensure('id_composition', Implies(And(Not(has_prefix), has_suffix), Eq(res, base + '/' + sfx)))
+        vc.ensure('id_composition', Implies(And(has_prefix, Not(has_suffix)), Eq(res, pfx + '/' + base)))
+        vc.ensure('id_composition', Implies(And(has_prefix, has_suffix), Eq(res, pfx + '/' + base + '/' + sfx)))
+        vc.ensure('id_composition', all(c is fn for c in asked) and (explicit is not None or len(asked) >= 1))
+        vc.canary('canary.id_is_bare', Eq(res, base))
+        return ('generate_id', explicit is None, prefix is None, suffix is None)
+    ld = vc.load(REG, 'get_callable_id')
+    if part == 1:
+        inner = _sample_outer()
+        obj = _Sample()
+
+        @functools.wraps(_sample_fn)
+        def wrapper(**kw):
+            return _sample_fn(**kw)
+
+        @functools.wraps(obj.method)
+        def method_wrapper(**kw):
+            return obj.method(**kw)
+        def bare_wrapper(**kw):
+            return _sample_fn(**kw)
+        bare_wrapper.__wrapped__ = _sample_fn           # a decorator that records what it wraps but keeps its own name
+        lam_id = f'lambda:{_sample_lambda.__code__.co_filename}:{_sample_lambda.__code__.co_firstlineno}'
+        cases = [
+            (_sample_fn, '_sample_fn'), (inner, '_sample_outer.<locals>.inner'), (obj.method, '_Sample.method'),
+            (_Sample.method, '_Sample.method'), (functools.partial(_sample_fn, x=1), '_sample_fn'),
+            (functools.partial(functools.partial(obj.method, x=1), y=2), '_Sample.method'), (wrapper, '_sample_fn'),
+            (method_wrapper, '_Sample.method'), (functools.partial(wrapper), '_sample_fn'), (_sample_lambda, lam_id),
+            (functools.partial(_sample_lambda), lam_id), (bare_wrapper, '_sample_fn'),
+            (functools.lru_cache(maxsize=None)(_sample_fn), '_sample_fn'),       # a non-function wrapper object with __wrapped__
+        ]
+        i = vc.nondet(len(cases), 'callable')
+        c, want = cases[i]
+        got = ld.fn(c)
+        vc.ensure('callable_id_cases', isinstance(got, str) and got == want)
+        vc.ensure('callable_id_cases', ld.fn(c) == got and '0x' not in got)
+        if i == 0:
+            for bad in (None, _CallableObject(), len, 'name', functools.partial(_CallableObject())):
+                try:
+                    ld.fn(bad)
+                    ok = False
+                except ValueError:
+                    ok = True
+                except Exception:
+                    ok = False
+                vc.ensure('rejects_unidentifiable', ok)
+        return ('callable', i, got)
+    # ---- restart + purity
+    a, b = _one_process_start(), _one_process_start()
+    names = ['handler', 'anonymous', 'wrapper']
+    vc.canary('canary.restart_changes_objects', all(a[n] is b[n] for n in names))
+    for n in names:
+        vc.ensure('stable_across_restarts', a[n] is not b[n] and ld.fn(a[n]) == ld.fn(b[n]))
+    vc.ensure('stable_across_restarts', ld.fn(a['Owner']().method) == ld.fn(b['Owner']().method) == 'Owner.method')
+    vc.ensure('stable_across_restarts', ld.fn(a['wrapper']) == 'decorated' and ld.fn(a['anonymous']) == 'lambda:/operator/handlers.py:6')
+    g = vc.load(REG, 'generate_id')
+    vc.ensure('stable_across_restarts', g.fn(a['handler'], None, None, 'spec.x') == g.fn(b['handler'], None, None, 'spec.x') == 'handler/spec.x')
+    VOLATILE = {'id', 'hash', 'time', 'monotonic', 'random', 'uuid', 'uuid4', 'getpid', 'now', 'utcnow', 'urandom', 'token_hex'}
+    bad = []
+    for loaded in (ld, g):
+        for node in ast.walk(ast.parse(_dedent(loaded.src))):
+            if isinstance(node, ast.Call):
+                f = node.func
+                name = f.id if isinstance(f, ast.Name) else f.attr if isinstance(f, ast.Attribute) else ''
+                if name in VOLATILE:
+                    bad.append(name)
+            if isinstance(node, (ast.Import, ast.ImportFrom)):
+                bad.append('import')
+    vc.ensure('no_volatile_ingredients', not bad)
+    return ('restart', len(bad))
+
+
+def _dedent(src):
+    import textwrap
+    return textwrap.dedent(src)
+
+
+# =============================================================================================== R14
+REFS = 'kopf._cogs.structs.references'
+EVERYTHING = references.EVERYTHING
+
+
+def _selector_specs():
+    """(notation as in docs/resources.rst, the fields it must denote)."""
+    S = references.Selector
+    return [
+        (S('kopfexamples'), dict(any_name='kopfexamples')),
+        (S('kopf.dev', 'kopfexamples'), dict(group='kopf.dev', any_name='kopfexamples')),
+        (S('kopf.dev', 'v1', 'kopfexamples'), dict(group='kopf.dev', version='v1', any_name='kopfexamples')),
+        (S('kopf.dev/v1', 'kopfexamples'), dict(group='kopf.dev', version='v1', any_name='kopfexamples')),
+        (S('kopfexamples.kopf.dev'), dict(group='kopf.dev', any_name='kopfexamples')),
+        (S('kopfexamples.v1.kopf.dev'), dict(group='kopf.dev', version='v1', any_name='kopfexamples')),
+        (S('v1', 'pods'), dict(group='', version='v1', any_name='pods')),
+        (S('', 'v1', 'pods'), dict(group='', version='v1', any_name='pods')),
+        (S('pods.v1'), dict(version='v1', any_name='pods')),
+        (S(kind='KopfExample'), dict(kind='KopfExample')),
+        (S(plural='kopfexamples'), dict(plural='kopfexamples')),
+        (S(singular='kopfexample'), dict(singular='kopfexample')),
+        (S(shortcut='kex'), dict(shortcut='kex')),
+        (S(category='all'), dict(category='all')),
+        (S(group='kopf.dev', version='v1', plural='kopfexamples'), dict(group='kopf.dev', version='v1', plural='kopfexamples')),
+        (S(EVERYTHING), dict(any_name=EVERYTHING)),
+        (S('kopf.dev', EVERYTHING), dict(group='kopf.dev', any_name=EVERYTHING)),
+        (S('kopf.dev', 'v1', EVERYTHING), dict(group='kopf.dev', version='v1', any_name=EVERYTHING)),
+        (S('kopf.dev/v1', EVERYTHING), dict(group='kopf.dev', version='v1', any_name=EVERYTHING)),
+    ]
+
+
+SELECTOR_FIELDS = ('group', 'version', 'kind', 'plural', 'singular', 'shortcut', 'category', 'any_name', 'fn')
+
+
+def _names(r, name):
+    """`name` is one of the names of the resource: its plural, singular, kind or a short name."""
+    return Or(Eq(r.kind, name), Eq(r.plural, name), Eq(r.singular, name), *[Eq(s, name) for s in r.shortcuts])
+
+
+def spec_check(want, r, fn_says=None):
+    """docs/resources.rst as a formula over the resource's (symbolic) identity; `want` = the selector's fields."""
+    g, v = want.get('group'), want.get('version')
+    conj = []
+    if g is not None:
+        conj.append(Eq(r.group, g))
+    if v is not None:
+        conj.append(Eq(r.version, v))
+    elif 'fn' not in want:
+        conj.append(truthy(r.preferred))        # "the preferred API version of that API group is used"
+    for k in ('kind', 'plural', 'singular'):
+        if want.get(k) is not None:
+            conj.append(Eq(getattr(r, k), want[k]))
+    if want.get('shortcut') is not None:
+        conj.append(Or(*[Eq(s, want['shortcut']) for s in r.shortcuts], False))
+    if want.get('category') is not None:
+        conj.append(Or(*[Eq(c, want['category']) for c in r.categories], False))
+    is_event = Or(spec_check(dict(group='', version='v1', any_name='events'), r),               # Selector('v1', 'events')
+                  spec_check(dict(group='events.k8s.io', any_name='events'), r)) \
+        if (want.get('any_name') is EVERYTHING or 'fn' in want) else False                       # Selector('events.k8s.io', 'events')
+    if want.get('any_name') is EVERYTHING:
+        conj.append(Not(is_event))            # events are produced by the handling itself: never part of "everything"
+    elif want.get('any_name') is not None:
+        conj.append(_names(r, want['any_name']))
+    if 'fn' in want:
+        conj.append(And(fn_says, Not(is_event)))
+    return And(*conj, True)
+
+
+
+@harness('R14', targets=[f'{REFS}.Selector.check', f'{REFS}.Selector.select', f'{REFS}.Selector.__post_init__', f'{REFS}.Selector.is_specific'],
+         props=['C15', 'C19'],
+         clauses=['notation', 'check', 'callable_selector', 'select_filters', 'select_prefers_core_v1', 'rejects_ambiguous'],
+         canaries=['canary.matches_everything', 'canary.matches_nothing'],
+         assumes=['the resource has one short name and one category (both arbitrary strings); its group, version, plural, kind, singular '
+                  'are arbitrary strings, `preferred` an arbitrary boolean'])
+def R14(vc):
+    """
+    Selector (docs/resources.rst).  notation: each documented way of naming a resource denotes the stated group/version/name
+    fields (group/version positional or "group/version"; "name.group", "name.vN.group"; "v1" = the core group ""; keywords;
+    kopf.EVERYTHING).  check(resource), for an ARBITRARY resource identity:
+        group given -> equal;  version given -> equal, not given -> only the group's preferred version (any version for a
+        callable selector);  kind=/plural=/singular= -> that name equal;  shortcut= / category= -> among the resource's;
+        a positional name -> equal to the plural, singular, kind or a short name;  EVERYTHING -> every resource except
+        core-v1 `events` and events.k8s.io `events`;  a callable -> whatever it answers, events excepted likewise.
+    select(resources) = the resources passing check(); when the selector names specific resources (not a category, not
+    EVERYTHING, not a callable) and core-v1 (group "") resources are among them, only those -- as kubectl does for
+    "pods" vs "pods.metrics.k8s.io".  Ambiguous or empty specifications are rejected (TypeError).
+    C19: the watched (resource, namespace) pairs are those selected here; C15: the handler's resource-selector criterion.
+    """
+    part = vc.nondet(4, 'notation+check | callable | select | rejected')
+    S = references.Selector
+    if part in (0, 1):
+        r = references.Resource(group=vc.str('group'), version=vc.str('version'), plural=vc.str('plural'), kind=vc.str('kind'),
+                                singular=vc.str('singular'), shortcuts=(vc.str('shortcut'),), categories=(vc.str('category'),),
+                                preferred=vc.bool('preferred'))
+        ld = vc.load(REFS, 'Selector.check')
+        if part == 0:
+            specs = _selector_specs()
+            i = vc.nondet(len(specs), 'selector')
+            sel, want = specs[i]
+            vc.ensure('notation', all(getattr(sel, f) == want.get(f) for f in SELECTOR_FIELDS))
+            res = ld.fn(sel, r)
+            vc.ensure('check', Iff(truthy(res), spec_check(want, r)))
+            vc.canary('canary.matches_everything', truthy(res))
+            vc.canary('canary.matches_nothing', Not(truthy(res)))
+            return ('check', i)
+        says = vc.bool('fn(resource)')
+        asked = []
+
+        def fn(res_):
+            asked.append(res_); return says
+        sel = S(fn)
+        vc.ensure('notation', sel.fn is fn and all(getattr(sel, f) is None for f in SELECTOR_FIELDS if f != 'fn'))
+        res = ld.fn(sel, r)
+        vc.ensure('callable_selector', Iff(truthy(res), spec_check(dict(fn=fn), r, says)))
+        vc.ensure('callable_selector', all(a is r for a in asked))
+        return ('callable',)
+    if part == 2:
+        R_ = references.Resource
+        pool = [R_('', 'v1', 'pods', kind='Pod', singular='pod', shortcuts=frozenset({'po'}), categories=frozenset({'all'})),
+                R_('metrics.k8s.io', 'v1beta1', 'pods', kind='PodMetrics', singular='pod', categories=frozenset({'all'})),
+                R_('kopf.dev', 'v1', 'kopfexamples', kind='KopfExample', singular='kopfexample', shortcuts=frozenset({'kex'}), categories=frozenset({'all'})),
+                R_('kopf.dev', 'v1beta1', 'kopfexamples', kind='KopfExample', singular='kopfexample', preferred=False),
+                R_('', 'v1', 'events', kind='Event', singular='event')]
+        sels = [S('pods'), S('pod'), S(plural='pods'), S(category='all'), S(EVERYTHING), S('kopfexamples'), S('metrics.k8s.io', 'pods'),
+                S(lambda res_: res_.plural == 'pods'), S(shortcut='po'), S(kind='Pod'), S(singular='pod')]
+        si = vc.nondet(len(sels), 'selector')
+        mask = vc.nondet(2 ** len(pool), 'which resources exist')
+        present = [x for j, x in enumerate(pool) if mask >> j & 1]
+        sel = sels[si]
+        got = vc.load(REFS, 'Selector.select').fn(sel, list(present))
+        passing = [x for x in present if sel.check(x)]
+        named = si not in (3, 4, 7)          # names specific resources: not a category, EVERYTHING or a callable
+        vc.ensure('select_filters', vc.load(REFS, 'Selector.is_specific').fn(sel) == named)
+        core = [x for x in passing if x.group == '']
+        want = core if (named and core) else passing
+        vc.ensure('select_filters', set(got) <= set(passing) and len(set(got)) == len(list(got)))
+        vc.ensure('select_prefers_core_v1', set(got) == set(want))
+        return ('select', si, mask, len(got))
+    bad = [lambda: S(), lambda: S('kopfexamples', kind='KopfExample'), lambda: S(kind='K', plural='ks'), lambda: S('a', 'b', 'c', 'd'),
+           lambda: S(lambda r_: True, 'kopfexamples'), lambda: S(singular=''), lambda: S(''), lambda: S(group='kopf.dev')]
+    for b in bad:
+        try:
+            b(); ok = False
+        except TypeError:
+            ok = True
+        vc.ensure('rejects_ambiguous', ok)
+    return ('rejected', len(bad))
